@@ -3,6 +3,7 @@ import elin
 import efreelist
 import eoom
 import eevent
+import edbg
 
 LEVEL = "E-LIN restricted to the error paths"
 CRATES = ("oxidd_rules_bdd", "oxidd_rules_zbdd", "oxidd_rules_mtbdd", "oxidd_rules_tdd", "oxidd_dump",
@@ -26,6 +27,10 @@ def run(ctx):
     ctx.explain("E-FREELIST.term: the dynamic terminal manager's gc writes the free list it built back to its state "
                 "(freed terminal slots are reusable by the retry).")
     efreelist.check_terminal_gc(ctx, F)
+    ctx.explain("E-DBG: no side effect (atomic read-modify-write, store, container mutation, assignment) is evaluated inside a "
+                "debug assertion; with debug assertions off it would not happen (225 debug-only blocks inspected).")
+    n = edbg.run(ctx, F)
+    ctx.floor("E-DBG", "debug-only blocks inspected", n, 150)
     ctx.explain("E-EVENT.gc-order: terminals are swept after all inner-node levels, so that one collection after dropping "
                 "the handles of a failed operation frees the terminal slots the retry needs.")
     eevent.check_gc_sweep_order(ctx, F, "oxidd_manager_index")
